@@ -2119,6 +2119,10 @@ class Interp:
         if op is ast.BitOr:
             if _is_typeish(a) and _is_typeish(b):
                 return ExtRef("typing.Union")
+        if op is ast.Add and isinstance(a, ExtObj) and a.kind == "rdflib.URIRef" and is_strlike(b):
+            from . import models_rdflib as _R
+
+            return _R.uri(sstr(a.attrs["value"], b))  # rdflib.term.URIRef.__add__ keeps the class
         if op is ast.Add:
             if isinstance(a, ExtObj) and a.kind == "bytes:chunk":
                 return self.models.concat_chunks(a, b)
